@@ -207,8 +207,13 @@ class Ob:
                 vs = val.sites(U, self.func)
                 if not vs:
                     raise AnalysisBroken('variable %s not found in %s' % (val.var, self.func))
+                after = None if vs[0][1].get('param') else vs[0][1]['n']
                 val = vs[0][1]['n']
+            else:
+                after = None
             d = dict(kind='assume', n=n, ty=ty, pred=h[1], value=val, param=param)
+            if after is not None and param:
+                d['after'] = after
             if len(h) > 3:
                 d['mask'] = h[3]
             if at is not None:
@@ -373,6 +378,8 @@ def conj_closure(F, start, mode):
                 return 'Z'
         if o['k'] == 'c' and o['v'] == 0:
             return 'C0'
+        if o['k'] == 'null':
+            return 'C0'
         return None
     insts = [i for b in F.blocks for i in b['insts'] if b['id'] in after and i['op'] != 'dbgvalue']
     phis = {}
@@ -479,6 +486,46 @@ def conj_closure(F, start, mode):
                 if new:
                     (NZ if new == 'NZ' else Z).add(iid)
                     changed = True
+    # edges that cannot be taken when the verdict failed: a branch on (X ==/!= 0) with X in Z (X is 0) or NZ (X is not 0)
+    def zclass(o, depth=0):
+        k = cls(o)
+        if k in ('Z', 'NZ'):
+            return k
+        if o['k'] == 'i' and depth < 3 and F.insts[o['v']]['op'] in ('zext', 'sext', 'trunc'):
+            return zclass(F.insts[o['v']]['ops'][0], depth + 1)
+        return None
+    dead = set()
+    bidx = {b['id']: b for b in F.blocks}
+    for b in F.blocks:
+        t = b['insts'][-1]
+        if t['op'] != 'br' or len(t['ops']) != 3 or t['ops'][0]['k'] != 'i':
+            continue
+        c = F.insts[t['ops'][0]['v']]
+        if c['op'] != 'icmp' or c['pred'] not in ('eq', 'ne'):
+            continue
+        x, y = c['ops']
+        if not (y['k'] in ('c', 'null') and (y.get('v', 0) == 0)):
+            continue
+        k = zclass(x)
+        if k is None:
+            continue
+        iszero = (k == 'Z')
+        # LLVM operand order: cond, false-dest, true-dest
+        fdest, tdest = t['ops'][1]['v'], t['ops'][2]['v']
+        cond_true = (c['pred'] == 'eq') == iszero
+        dead.add((b['id'], fdest if cond_true else tdest))
+    live = set()
+    st = [F.block_of[start]]
+    while st:
+        b = st.pop()
+        if b in live:
+            continue
+        live.add(b)
+        for s2 in F.succ[b]:
+            if (b, s2) not in dead:
+                st.append(s2)
+    # the start block itself: only instructions after the site matter, which successor edges handle
+    after = after & live
     # verdict: every ret after the site returns a Z value or constant 0
     nret = 0
     for b in F.blocks:
@@ -489,7 +536,23 @@ def conj_closure(F, start, mode):
             continue
         nret += 1
         o = t['ops'][0]
-        if cls(o) in ('Z', 'C0'):
+
+        def val_ok(o, depth=0):
+            if cls(o) in ('Z', 'C0'):
+                return True
+            if o['k'] == 'i' and F.insts[o['v']]['op'] == 'phi' and depth < 4:
+                ph = F.insts[o['v']]
+                pb = F.block_of[ph['id']]
+                n = 0
+                for x, inb in zip(ph['ops'], ph['inb']):
+                    if inb not in after or (inb, pb) in dead or pb not in F.succ[inb]:
+                        continue
+                    n += 1
+                    if not val_ok(x, depth + 1):
+                        return False
+                return n > 0
+            return False
+        if val_ok(o):
             continue
         return False, 'ret at line %s returns a value that is not forced to 0 by this contribution' % t.get('line')
     if nret == 0:
